@@ -76,8 +76,8 @@ class Spec(core.PropSpec):
             mode = "class" if stack["seeded"]["w"] == "mix" else S.item_of(stack["seeded"])  # the random item itself
         K = ro.choice([0, 1, 2, 2, 3, 4])
         epochs = []
-        for _ in range(ro.choice([1, 2, 2, 3])):
-            nb = ro.randint(1, 6)
+        for _ in range(ro.choice([1, 2, 2, 3] + ([4, 5] if tier != "quick" else []))):
+            nb = ro.randint(1, 6 if tier == "quick" else 12)
             batches = [[ro.randrange(1000) for _ in range(ro.randint(1, 4))] for _ in range(nb)]
             epochs.append(dict(batches=batches, gen_seed=ro.choice([None, ro.randint(0, 99)]),
                                clobber_main=ro.choice([None, None, ["np", ro.randint(0, 99)], ["torch", ro.randint(0, 99)], ["py", 5]]),
